@@ -36,8 +36,9 @@ def jobs(tier, seed):
     return [{"seed": seed, "i": i, "lengths": lens[i::n]} for i in range(n)]
 
 
-def ihex(data, base, rng):
-    """Independent Intel-HEX encoder: random record lengths, optional 04/05 records."""
+def ihex(data, base, rng, holes=()):
+    """Independent Intel-HEX encoder: random record lengths, optional 04/05 records, optional address holes
+    (no record covers the bytes of a hole)."""
     def rec(addr, typ, payload):
         b = bytes([len(payload), (addr >> 8) & 0xFF, addr & 0xFF, typ]) + payload
         return ":" + (b + bytes([(-sum(b)) & 0xFF])).hex().upper()
@@ -47,7 +48,12 @@ def ihex(data, base, rng):
     pos = 0
     while pos < len(data):
         n = rng.choice([16, 16, 16, 32, 1, 7, 8, 255]) if rng.random() < 0.5 else 16
-        chunk = data[pos:pos + n]
+        hole = next(((a, b) for a, b in holes if a <= pos < b), None)
+        if hole:
+            pos = hole[1]
+            continue
+        nxt = min([a for a, b in holes if a > pos] + [len(data)])
+        chunk = data[pos:min(pos + n, nxt)]
         addr = base + pos
         # keep a record inside one 64K segment
         room = 0x10000 - (addr & 0xFFFF)
@@ -128,8 +134,22 @@ def serve_case(res, rng, length, tmp):
         if via_hex:
             base = rng.choice([0, 0, 0x100, 0x7000])
             path = os.path.join(tmp, f"fw{os.getpid()}.hex")
+            holes = []
+            if length > 8 and rng.random() < 0.4:
+                # data records leave address holes (alignment gaps, a table placed higher up): the file then encodes
+                # the span from the lowest to the highest address with the unprogrammed bytes reading 0xFF
+                for _ in range(rng.randint(1, 2)):
+                    a = rng.randrange(1, length - 1)
+                    b = min(length - 1, a + rng.choice([1, 2, 15, 16, 54, 200]))
+                    holes.append((a, b))
+                mutable = bytearray(img)
+                for a, b in holes:
+                    mutable[a:b] = b"\xff" * (b - a)
+                img = bytes(mutable)
+                case["holes"] = holes
+                res.count("intel_hex_with_holes")
             with open(path, "w", encoding="utf-8") as fh:
-                fh.write(ihex(img, base, rng))
+                fh.write(ihex(img, base, rng, holes))
             err = eng.call("fwpath", nodes if len(nodes) > 1 or rng.random() < 0.5 else nodes[0], ft, fv, path)
             os.remove(path)
             res.count("intel_hex_loads")
@@ -274,7 +294,7 @@ def finish(agg, tier):
                 "under the same (type, version) and partly fetched / another firmware served to another node in parallel. distinct = "
                 "(len mod 16, len mod 128, size bucket, order class, #nodes, hex?, prior history).",
         "floors": [("images_reassembled", c.get("images_reassembled", 0), 300), ("block_requests", c.get("block_requests", 0), 100000),
-                   ("intel_hex_loads", c.get("intel_hex_loads", 0), 80),
+                   ("intel_hex_loads", c.get("intel_hex_loads", 0), 80), ("intel_hex_with_holes", c.get("intel_hex_with_holes", 0), 20),
                    ("reloaded_same_id_cases", c.get("reloaded_same_id_cases", 0), 80), ("parallel_firmware_cases", c.get("parallel_firmware_cases", 0), 40)],
         "assumptions": ["independent bitwise CRC-16/MODBUS (poly 0xA001, init 0xFFFF)"],
         "show": ["images_reassembled", "block_requests", "intel_hex_loads"],
